@@ -12,7 +12,7 @@ LEVEL = "exploration"
 RULE = (
     "every live type (structures, the four area tables, frames, response-code name tables) is walked once after "
     "import; one evaluation per (type or table entry, coherence rule) plus one per compared snapshot node; distinct = "
-    "distinct (rule, type/entry) pairs; exhaustive over the finite tables"
+    "distinct (rule, type/entry) pairs; exhaustive over the finite tables; then the allowed set of every constrained primitive type is probed by membership at every interval end point (+-1) of its whole type family in three passes (name order, reverse, shuffled after a decode workload) and the walk is compared with the snapshot a second time"
 )
 ASSUMPTIONS = [
     "layout/pinned_layout.json is the trusted description of the wire layout (produced once by the walker, corrected "
@@ -162,14 +162,86 @@ def run_shard(shard, rec):
         mech = "snapshot" + re.sub(r"\[\d+\]", "[]", path)
         rec.case(("diff", path))
         rec.violation("snapshot-diff", mech, line, dict(kind="diff", line=line))
+    rec.count("walks", 1)
+    after_use(rec, P, shard.get("tier", "quick"))
     for tn in ("TPMT_PUBLIC", "TPMU_HA", "TPM_HANDLE"):
         rec.sample({tn: w["types"][tn] if len(str(w["types"][tn])) < 400 else str(w["types"][tn])[:400]})
+
+
+def after_use(rec, P, tier):
+    """Second quiescent point: the tables after they have been used.  The allowed sets are probed by membership (the way the
+    decoder consults them) for every constrained primitive type at every interval end point of its whole family, in two
+    orders of the types and twice, a decode workload runs in between, and the walk is compared with the snapshot again."""
+    import random
+
+    from .. import cases, gen, history
+    from .. import refmodel as R
+    from .. import trace as TR
+
+    prim = {n: d for n, d in P["types"].items() if d["kind"] == "prim"}
+    fam = {}
+    for n, d in prim.items():
+        bases = d["bases"]
+        root = bases[-2] if len(bases) >= 2 else (bases[-1] if bases else n)
+        fam.setdefault((root, d["width"]), []).append(n)
+    cands = {}
+    for key, members in fam.items():
+        pts = set()
+        for n in members:
+            for a, b in prim[n]["valid"]:
+                pts.update((a - 1, a, a + 1, b - 2, b - 1, b))
+        for n in members:
+            lo, hi = (-(1 << (8 * prim[n]["width"] - 1)), 1 << (8 * prim[n]["width"] - 1)) if prim[n]["signed"] else (0, 1 << (8 * prim[n]["width"]))
+            cands[n] = sorted(p for p in pts if lo <= p < hi)
+    constrained = sorted(n for n, d in prim.items() if cases.constrained(d))
+
+    def probe(order, label):
+        for n in order:
+            T = TR.type_by_name(n)
+            d = prim[n]
+            for c in cands[n]:
+                exp = R.in_intervals(c, d["valid"])
+                try:
+                    got1 = T(c).is_valid()
+                    got2 = c in T._valid_values
+                except Exception as e:
+                    rec.violation("membership", f"raises:{n}", f"{n}: membership test of {c:#x} raises {type(e).__name__}: {e} ({label})", dict(kind="after-use"))
+                    break
+                rec.case(("member", n, c, label))
+                if bool(got1) != exp or bool(got2) != exp:
+                    rec.violation("membership", f"{n}", f"{n}: {c:#x} is {'in' if exp else 'not in'} the pinned allowed set, the live type says is_valid()={got1}, "
+                                                       f"in _valid_values={got2} ({label})", dict(kind="after-use"))
+                    break
+        rec.count("membership_probe_passes")
+
+    probe(constrained, "first pass, types in name order")
+    probe(constrained[::-1], "second pass, reverse order")
+    # use: decode a workload (well-formed messages of many codes, hostile scenes)
+    rng = random.Random(20)
+    ccs = gen.ccs()
+    n_msgs = 0
+    for c, r in cases.msg_cases(ccs[:: (6 if tier == "quick" else 1)], rng, 1, configs=cases.CONFIGS[:2]):
+        for case in (c, r):
+            TR.run(case.t, case.d, strict=True, cc=case.cc, enc=case.enc)
+            n_msgs += 1
+    history.aborted_scenes(rec)
+    rec.count("messages_decoded_between_walks", n_msgs)
+    shuffled = list(constrained)
+    rng.shuffle(shuffled)
+    probe(shuffled, "third pass, after the decode workload, shuffled order")
+    w2 = layout.walk()
+    for line in layout.diff(w2, P):
+        path = line.split(":", 1)[0]
+        rec.violation("snapshot-diff-after-use", "snapshot" + re.sub(r"\[\d+\]", "[]", path), line + " (walk repeated after the tables were used)", dict(kind="after-use"))
+    rec.count("walks", 1)
 
 
 def finish(m, tier):
     inc = []
     if m["counters"].get("types_walked", 0) < 200 or m["counters"].get("command_codes", 0) < 100:
         inc.append("walker saw too few types/codes")
+    if m["counters"].get("membership_probe_passes", 0) < 3 or m["counters"].get("walks", 0) < 2:
+        inc.append("the after-use phase (membership probes, second walk) did not complete")
     return dict(exhaustive=True, inconclusive=inc)
 
 
